@@ -260,8 +260,10 @@ C11_Step(S, c, cmd, R) ==
              /\ LET oi == OperCfgIdx(S, cmd.p[1][1]) IN
                 oi # 0 /\ cmd.p[2][1] = S.cfg.operators[oi].pass
                 /\ (S.cfg.operators[oi].mask # <<>> => Glob(S.cfg.operators[oi].mask[1], S.conns[c].src))
-    /\ \A n \in DOMAIN R.st.users \ DOMAIN S.users :     \* new users: only the configured default modes
-          R.st.users[n].modes \subseteq S.cfg.default_modes \cup {"r"}
+    /\ \A n \in DOMAIN R.st.users \ DOMAIN S.users :
+          LET prev == {m \in DOMAIN S.users : S.users[m].host = R.st.users[n].host} IN
+          IF prev = {} THEN R.st.users[n].modes \subseteq S.cfg.default_modes \cup {"r"}    \* a new user
+          ELSE \A m \in prev : IsOper(R.st.users[n]) => IsOper(S.users[m])                   \* a renamed one
     /\ (Ok(S, c, cmd) /\ cmd.verb = "MODE" /\ ~ValidChannel(cmd.p[1][1])) =>
           \A n \in DOMAIN S.users \ {NickOf(S, c)} : n \in DOMAIN R.st.users /\ R.st.users[n] = S.users[n]
     /\ (Ok(S, c, cmd) /\ cmd.verb \in {"KILL", "DIE"} /\ "o" \notin UserOf(S, c).modes) =>
